@@ -750,7 +750,11 @@ class QvmCpu:
         if len(value) == 0:
             self.trap(TrapCode.INVALID_OPERAND_VALUE,
                       desc='ASC does not accept empty strings')
-        self.push(CellType.INTEGER, ord(value[0]))
+        # the character's code in code page 437, so that
+        # ASC(CHR$(n)) = n (a character the code page does not have
+        # can only come from the keyboard; it counts as "?")
+        code = value[0].encode('cp437', errors='replace')[0]
+        self.push(CellType.INTEGER, code)
 
     def _exec_call(self, target):
         self.push(CellType.LONG, self.pc)
@@ -795,9 +799,16 @@ class QvmCpu:
                       expected=a.type,
                       got=b.type)
 
-        if a.value == b.value:
+        a_value, b_value = a.value, b.value
+        if a.type == CellType.STRING:
+            # strings are ordered by the code page 437 codes of their
+            # characters
+            a_value = a_value.encode('cp437', errors='replace')
+            b_value = b_value.encode('cp437', errors='replace')
+
+        if a_value == b_value:
             result = 0
-        elif a.value < b.value:
+        elif a_value < b_value:
             result = -1
         else:
             result = 1
